@@ -291,34 +291,33 @@ theorem C05.innerprod_adj (cj : K →+* K) (hcj : ∀ a, cj (cj a) = a) (I : K) 
     simp only [dot_eq, fieldSpace, sum_range_one, map_mul, one_mul, sum_mul, mul_sum]
     exact sum_congr rfl fun j _ => sum_congr rfl fun i _ => by ring
 
-/-- MultiplyOperator(v, domain=RealNumbers()): c ↦ c·v has adjoint y ↦ ⟨y, v⟩
-(InnerProductOperator(v)); the ComplexNumbers branch raises (`adj = none`). -/
+/-- MultiplyOperator(v, domain=field), real or complex field: c ↦ c·v has adjoint
+y ↦ ⟨y, v⟩ (InnerProductOperator(v), no conjugation of `v`). -/
 theorem C05.multfield_adj (cj : K →+* K) (hcj : ∀ a, cj (cj a) = a) (I : K) (S F : Space K)
     (v : El K) : LeafOK cj I (.multField S F v) := by
   intro t' hw ha
   obtain ⟨rfl, hv, hW⟩ := hw
-  by_cases h : S.real = true
-  · simp [Leaf.adj, fieldSpace, h] at ha; subst ha
-    simp only [Leaf.dom, Leaf.ran, Impl.run, Leaf.run, Leaf.needRe]
-    refine ⟨?_, ?_, ?_⟩
-    · intro x hx h' j i
-      have := hx (by simpa [fieldSpace] using h') 0 0
-      simp [this, hv h' j i]
-    · intro y hy h' j i
-      simp only [dot_eq, map_sum, map_mul, hcj, hW _ _, hy h _ _, hv h _ _]
-    · intro φ _ x y _ _
-      congr 1
-      simp only [dot_eq, fieldSpace, sum_range_one, map_mul, map_sum, hcj, hW _ _, one_mul,
-        sum_mul, mul_sum]
-      exact sum_congr rfl fun j _ => sum_congr rfl fun i _ => by ring
-  · simp [Leaf.adj, fieldSpace, h] at ha
+  simp [Leaf.adj] at ha; subst ha
+  simp only [Leaf.dom, Leaf.ran, Impl.run, Leaf.run, Leaf.needRe]
+  refine ⟨?_, ?_, ?_⟩
+  · intro x hx h' j i
+    have := hx (by simpa [fieldSpace] using h') 0 0
+    simp [this, hv h' j i]
+  · intro y hy h' j i
+    have h : S.real = true := by simpa [fieldSpace] using h'
+    simp only [dot_eq, map_sum, map_mul, hcj, hW _ _, hy h _ _, hv h _ _]
+  · intro φ _ x y _ _
+    congr 1
+    simp only [dot_eq, fieldSpace, sum_range_one, map_mul, map_sum, hcj, hW _ _, one_mul,
+      sum_mul, mul_sum]
+    exact sum_congr rfl fun j _ => sum_congr rfl fun i _ => by ring
 
-/-- MatrixOperator (1-d): the conjugate transpose IS the adjoint when domain and range carry
-the same constant weight (any sizes, any matrix). -/
-theorem C05.matrix_adj_of_equal_const_weights (cj : K →+* K) (hcj : ∀ a, cj (cj a) = a) (I : K)
+/-- MatrixOperator (1-d): `W_dom⁻¹ Mᴴ W_ran` IS the adjoint for ARBITRARY non-zero real
+weights on domain and range (constant or per entry), any sizes, any real/complex matrix. -/
+theorem C05.matrix_adj (cj : K →+* K) (hcj : ∀ a, cj (cj a) = a) (I : K)
     (d r : Space K) (M : Nat → Nat → K) : LeafOK cj I (.matrix d r M) := by
   intro t' hw ha
-  obtain ⟨hd, hr, ⟨c, hdc, hrc⟩, hdr, hM⟩ := hw
+  obtain ⟨hd, hr, hd0, hWd, hWr, hdr, hM⟩ := hw
   simp [Leaf.adj] at ha; subst ha
   simp only [Leaf.dom, Leaf.ran, Impl.run, Leaf.run, Leaf.needRe]
   refine ⟨?_, ?_, ?_⟩
@@ -327,14 +326,15 @@ theorem C05.matrix_adj_of_equal_const_weights (cj : K →+* K) (hcj : ∀ a, cj 
     simp only [sumTo_eq, map_sum, map_mul, hM (hdr ▸ h), hxr (hdr ▸ h)]
   · intro y hy h j i
     have hyr : r.real = true → ∀ j i, cj (y j i) = y j i := hy
-    simp only [sumTo_eq, map_sum, map_mul, hcj, hM h, hyr (hdr ▸ h)]
+    simp only [sumTo_eq, map_sum, map_mul, map_div₀, hcj, hM h, hyr (hdr ▸ h), hWd _ _, hWr _ _]
   · intro φ _ x y _ _
     congr 1
-    simp only [dot_eq, hd, hr, sum_range_one, sumTo_eq, hdc, hrc, map_sum, map_mul, hcj,
-      mul_sum, sum_mul]
+    simp only [dot_eq, hd, hr, sum_range_one, sumTo_eq, map_sum, map_mul, map_div₀, hcj,
+      hWd _ _, hWr _ _, mul_sum, sum_mul]
     rw [sum_comm]
-    exact sum_congr rfl fun j _ => sum_congr rfl fun i _ => by ring
-
+    refine sum_congr rfl fun k _ => sum_congr rfl fun i _ => ?_
+    have := hd0 k
+    field_simp
 
 /-- PointwiseInner / PointwiseSum on a power space `V = X^d` with ARBITRARY non-zero real
 product weights `v` and ARBITRARY operator weights `w`: the adjoint is
@@ -405,122 +405,118 @@ theorem C05.pointwise_inner_adjoint_adj (cj : K →+* K) (hcj : ∀ a, cj (cj a)
     · simp only [e, if_false, (hwv i).1]
       field_simp
 
-/-- SamplingOperator ↦ WeightedSumSamplingOperator (`point_eval ↦ dirac`,
-`integrate ↦ char_fun`) on a space whose weighting is the cell volume `cv`; duplicate
-sampling indices allowed (`np.bincount` sums). All sizes, any number of points. -/
+/-- SamplingOperator on a space with ARBITRARY non-zero real weights `W` (constant, array,
+cell volume or not): the adjoint is `(cv / W) · WeightedSumSamplingOperator`
+(`point_eval ↦ dirac`, `integrate ↦ char_fun`); duplicate sampling indices allowed
+(`np.bincount` sums).  All sizes, any number of points, real and complex. -/
 theorem C05.sampling_adj (cj : K →+* K) (I : K) (S R : Space K) (idx : Nat → Nat)
     (integrate : Bool) (cv : K) : LeafOK cj I (.sampling S R idx integrate cv) := by
   intro t' hw ha
-  obtain ⟨hS, hR, hSW, hRW, hcv, hcvr, hidx, hreal⟩ := hw
+  obtain ⟨hS, hR, hW0, hWr, hRW, hcv, hcvr, hidx, hreal⟩ := hw
   simp [Leaf.adj] at ha; subst ha
-  simp only [Leaf.dom, Leaf.ran, Impl.run, Leaf.run, Leaf.needRe]
+  simp only [Leaf.dom, Leaf.ran, Impl.run, Leaf.run, Impl.needRe, Leaf.needRe]
   refine ⟨?_, ?_, ?_⟩
   · intro x hx h j i
     have := hx (by rw [← hreal]; exact h) 0 (idx i)
     cases integrate <;> simp [this, hcvr]
   · intro y hy h j i
     have hyr := hy (by rw [hreal]; exact h)
-    cases integrate <;> simp [sumTo_eq, map_sum, apply_ite cj, hyr, hcvr]
+    cases integrate <;> simp [sumTo_eq, map_sum, apply_ite cj, hyr, hcvr, hWr _ _]
   · intro φ _ x y _ _
     congr 1
-    simp only [dot_eq, hS, hR, sum_range_one, sumTo_eq, hSW, hRW, one_mul]
-    have hc : cv / cj (if (!integrate) = true then cv else 1) =
-        (if integrate = true then cv else 1) := by
-      cases integrate <;> simp [hcvr, hcv]
-    calc ∑ k ∈ range (R.n 0), x 0 (idx k) * (if integrate = true then cv else 1) * cj (y 0 k)
-        = ∑ k ∈ range (R.n 0), ∑ i ∈ range (S.n 0), (if idx k = i then
-            x 0 i * (if integrate = true then cv else 1) * cj (y 0 k) else 0) := by
-          refine sum_congr rfl fun k hk => ?_
-          rw [sum_ite_eq (range (S.n 0)) (idx k)]
-          simp [hidx k (mem_range.mp hk)]
-      _ = ∑ i ∈ range (S.n 0), ∑ k ∈ range (R.n 0), (if idx k = i then
-            x 0 i * (if integrate = true then cv else 1) * cj (y 0 k) else 0) := sum_comm
-      _ = _ := by
-          refine sum_congr rfl fun i _ => ?_
-          rw [map_div₀, map_sum, div_eq_mul_inv, sum_mul, mul_sum]
-          refine sum_congr rfl fun k _ => ?_
-          rw [← hc]
-          by_cases e : idx k = i
-          · simp only [e, if_true, div_eq_mul_inv]; ring
-          · simp [e]
+    simp only [dot_eq, hS, hR, sum_range_one, sumTo_eq, hRW, one_mul]
+    have key : ∀ i ∈ range (S.n 0), S.W 0 i * x 0 i * cj ((∑ k ∈ range (R.n 0),
+        if idx k = i then y 0 k else 0) / (if (!integrate) = true then cv else 1) *
+        (cv / S.W 0 i)) =
+        ∑ k ∈ range (R.n 0), if idx k = i then
+          x 0 i * (if integrate = true then cv else 1) * cj (y 0 k) else 0 := by
+      intro i _
+      have hWi := hW0 i
+      rw [map_mul, map_div₀, map_div₀, map_sum, hcvr, hWr 0 i, sum_div, sum_mul, mul_sum]
+      refine sum_congr rfl fun k _ => ?_
+      by_cases e : idx k = i
+      · simp only [e, if_true]
+        cases integrate <;> simp [hcvr] <;> field_simp
+      · simp [e]
+    symm
+    rw [sum_congr rfl key, sum_comm]
+    refine sum_congr rfl fun k hk => ?_
+    rw [sum_ite_eq (range (S.n 0)) (idx k)]
+    simp [hidx k (mem_range.mp hk)]
 
-
-/-- WeightedSumSamplingOperator ↦ SamplingOperator (`dirac ↦ point_eval`,
-`char_fun ↦ integrate`): the reverse direction, duplicates allowed. -/
+/-- WeightedSumSamplingOperator into a space with arbitrary non-zero real weights `W`:
+the adjoint is `SamplingOperator ∘ (W / cv)·` (`dirac ↦ point_eval`, `char_fun ↦ integrate`),
+duplicates allowed. -/
 theorem C05.wsum_sampling_adj (cj : K →+* K) (I : K) (R S : Space K) (idx : Nat → Nat)
     (dirac : Bool) (cv : K) : LeafOK cj I (.wsum R S idx dirac cv) := by
   intro t' hw ha
-  obtain ⟨hS, hR, hSW, hRW, hcv, hcvr, hidx, hreal⟩ := hw
+  obtain ⟨hS, hR, hW0, hWr, hRW, hcv, hcvr, hidx, hreal⟩ := hw
   simp [Leaf.adj] at ha; subst ha
-  simp only [Leaf.dom, Leaf.ran, Impl.run, Leaf.run, Leaf.needRe]
+  simp only [Leaf.dom, Leaf.ran, Impl.run, Leaf.run, Impl.needRe, Leaf.needRe]
   refine ⟨?_, ?_, ?_⟩
   · intro y hy h j i
     have hyr := hy (by rw [hreal]; exact h)
     cases dirac <;> simp [sumTo_eq, map_sum, apply_ite cj, hyr, hcvr]
   · intro x hx h j i
     have := hx (by rw [← hreal]; exact h) 0 (idx i)
-    cases dirac <;> simp [this, hcvr]
+    cases dirac <;> simp [this, hcvr, hWr _ _]
   · intro φ _ y x _ _
     congr 1
-    simp only [dot_eq, hS, hR, sum_range_one, sumTo_eq, hSW, hRW, one_mul]
-    have hc : cv / (if dirac = true then cv else 1) =
-        cj (if (!dirac) = true then cv else 1) := by
-      cases dirac <;> simp [hcvr, hcv]
-    symm
-    calc ∑ k ∈ range (R.n 0), y 0 k * cj (x 0 (idx k) * (if (!dirac) = true then cv else 1))
-        = ∑ k ∈ range (R.n 0), ∑ i ∈ range (S.n 0), (if idx k = i then
-            y 0 k * cj (x 0 i * (if (!dirac) = true then cv else 1)) else 0) := by
-          refine sum_congr rfl fun k hk => ?_
-          rw [sum_ite_eq (range (S.n 0)) (idx k)]
-          simp [hidx k (mem_range.mp hk)]
-      _ = ∑ i ∈ range (S.n 0), ∑ k ∈ range (R.n 0), (if idx k = i then
-            y 0 k * cj (x 0 i * (if (!dirac) = true then cv else 1)) else 0) := sum_comm
-      _ = _ := by
-          refine sum_congr rfl fun i _ => ?_
-          rw [div_eq_mul_inv, sum_mul, mul_sum, sum_mul]
-          refine sum_congr rfl fun k _ => ?_
-          rw [map_mul, ← hc]
-          by_cases e : idx k = i
-          · simp only [e, if_true, div_eq_mul_inv]; ring
-          · simp [e]
+    simp only [dot_eq, hS, hR, sum_range_one, sumTo_eq, hRW, one_mul]
+    have key : ∀ i ∈ range (S.n 0), S.W 0 i * ((∑ k ∈ range (R.n 0),
+        if idx k = i then y 0 k else 0) / (if dirac = true then cv else 1)) * cj (x 0 i) =
+        ∑ k ∈ range (R.n 0), if idx k = i then
+          y 0 k * cj (x 0 i * (S.W 0 i / cv) * (if (!dirac) = true then cv else 1)) else 0 := by
+      intro i _
+      rw [sum_div, mul_sum, sum_mul]
+      refine sum_congr rfl fun k _ => ?_
+      by_cases e : idx k = i
+      · simp only [e, if_true, map_mul, map_div₀, hcvr, hWr 0 i]
+        cases dirac <;> simp [hcvr] <;> field_simp
+      · simp [e]
+    rw [sum_congr rfl key, sum_comm]
+    refine sum_congr rfl fun k hk => ?_
+    rw [sum_ite_eq (range (S.n 0)) (idx k)]
+    simp [hidx k (mem_range.mp hk)]
 
-/-- FlatteningOperator (C order) on a space weighted by its cell volume `cv`:
-adjoint = `(1/cv) · inverse`. -/
-theorem C05.flatten_adj (cj : K →+* K) (I : K) (S R : Space K) (cv : K) :
-    LeafOK cj I (.flatten S R cv) := by
+/-- FlatteningOperator (C order) on a space with arbitrary non-zero real weights `W`:
+adjoint = `(1 / W) · inverse`. -/
+theorem C05.flatten_adj (cj : K →+* K) (I : K) (S R : Space K) :
+    LeafOK cj I (.flatten S R) := by
   intro t' hw ha
-  obtain ⟨hS, hR, hn, hSW, hRW, hcv, hcvr, hreal⟩ := hw
+  obtain ⟨hS, hR, hn, hW0, hWr, hRW, hreal⟩ := hw
   simp [Leaf.adj] at ha; subst ha
-  simp only [Leaf.dom, Leaf.ran, Impl.run, Leaf.run, Leaf.needRe]
+  simp only [Leaf.dom, Leaf.ran, Impl.run, Leaf.run, Impl.needRe, Leaf.needRe]
   refine ⟨?_, ?_, ?_⟩
   · intro x hx h j i
     exact hx (by rw [← hreal]; exact h) 0 i
   · intro y hy h j i
     have := hy (by rw [hreal]; exact h) 0 i
-    simp [this, hcvr]
+    simp [this, hWr _ _]
   · intro φ _ x y _ _
     congr 1
-    simp only [dot_eq, hS, hR, sum_range_one, hSW, hRW, hn, map_mul]
+    simp only [dot_eq, hS, hR, sum_range_one, hRW, hn, map_mul]
     refine sum_congr rfl fun i _ => ?_
-    rw [map_inv₀, hcvr]
+    have := hW0 i
+    rw [map_inv₀, hWr 0 i]
     field_simp
 
-/-- The inverse of the flattening: adjoint = `cv · FlatteningOperator`. -/
-theorem C05.flatten_inverse_adj (cj : K →+* K) (I : K) (R S : Space K) (cv : K) :
-    LeafOK cj I (.flattenInv R S cv) := by
+/-- The inverse of the flattening: adjoint = `FlatteningOperator ∘ (W ·)`. -/
+theorem C05.flatten_inverse_adj (cj : K →+* K) (I : K) (R S : Space K) :
+    LeafOK cj I (.flattenInv R S) := by
   intro t' hw ha
-  obtain ⟨hS, hR, hn, hSW, hRW, hcv, hcvr, hreal⟩ := hw
+  obtain ⟨hS, hR, hn, hW0, hWr, hRW, hreal⟩ := hw
   simp [Leaf.adj] at ha; subst ha
-  simp only [Leaf.dom, Leaf.ran, Impl.run, Leaf.run, Leaf.needRe]
+  simp only [Leaf.dom, Leaf.ran, Impl.run, Leaf.run, Impl.needRe, Leaf.needRe]
   refine ⟨?_, ?_, ?_⟩
   · intro y hy h j i
     exact hy (by rw [hreal]; exact h) 0 i
   · intro x hx h j i
     have := hx (by rw [← hreal]; exact h) 0 i
-    simp [this, hcvr]
+    simp [this, hWr _ _]
   · intro φ _ y x _ _
     congr 1
-    simp only [dot_eq, hS, hR, sum_range_one, hSW, hRW, hn, map_mul, hcvr]
+    simp only [dot_eq, hS, hR, sum_range_one, hRW, hn, map_mul, hWr _ _]
     refine sum_congr rfl fun i _ => ?_
     ring
 
@@ -544,13 +540,13 @@ theorem C05.leaf_sound (cj : K →+* K) (hcj : ∀ a, cj (cj a) = a) (I : K) : L
   | realPart S R => intro t' hw ha; exact hw t' ha
   | imagPart S R => intro t' hw ha; exact hw t' ha
   | cembed S C s => intro t' hw ha; exact hw t' ha
-  | matrix d r M => exact C05.matrix_adj_of_equal_const_weights cj hcj I d r M
+  | matrix d r M => exact C05.matrix_adj cj hcj I d r M
   | pwInner V X G w v => exact C05.pointwise_inner_adj cj hcj I V X G w v
   | pwInnerAdj X V G w v => exact C05.pointwise_inner_adjoint_adj cj hcj I X V G w v
   | sampling S R idx b cv => exact C05.sampling_adj cj I S R idx b cv
   | wsum R S idx b cv => exact C05.wsum_sampling_adj cj I R S idx b cv
-  | flatten S R cv => exact C05.flatten_adj cj I S R cv
-  | flattenInv R S cv => exact C05.flatten_inverse_adj cj I R S cv
+  | flatten S R => exact C05.flatten_adj cj I S R
+  | flattenInv R S => exact C05.flatten_inverse_adj cj I R S
   | proj P Q idx => intro t' hw ha; exact hw t' ha
   | projAdj Q P idx => intro t' hw ha; exact hw t' ha
 
@@ -589,8 +585,7 @@ def OdlModel.Adjoint.Impl.leavesTyped (cj : K → K) (I : K) : Impl K → Prop
   | .pcons _ _ a rest => a.leavesTyped cj I ∧ rest.leavesTyped cj I
 
 /-- `adj_type`: the adjoint of every expression tree maps range → domain, provided the leaf
-adjoints do (they do for every modelled leaf except RealPart/ImagPart on a complex space,
-see `C05.adj_type_fails_realpart`). -/
+adjoints do (`C05.leaf_typed`: every modelled leaf). -/
 theorem C05.adj_type_tree (cj : K → K) (I : K) (t : Impl K) :
     ∀ t', t.leavesTyped cj I → t.adj cj I = some t' → t'.dom = t.ran ∧ t'.ran = t.dom := by
   induction t with
@@ -654,11 +649,13 @@ theorem C05.adj_type_tree (cj : K → K) (I : K) (t : Impl K) :
         simp [Impl.adj, ea, er] at ha; subst ha
         exact ihr rest' hl.2 er
 
-/-- Leaves whose coded adjoint has the transposed type (syntactically, all sizes). -/
+/-- Every modelled leaf's coded adjoint has the transposed type (range → domain), all sizes;
+the side conditions only say that `real_space` / `complex_space` of a space that already is
+real / complex is the space itself. -/
 theorem C05.leaf_typed (cj : K → K) (I : K) (l : Leaf K)
     (h : match l with
-      | .realPart S R => S.real = true ∧ R = S
-      | .imagPart S R => S.real = true ∧ R = S
+      | .realPart S R => S.real = true → R = S
+      | .imagPart S R => S.real = true → R = S
       | .cembed S C _ => S.real = false → C = S
       | _ => True) :
     (Impl.leaf l).leavesTyped cj I := by
@@ -674,11 +671,15 @@ theorem C05.leaf_typed (cj : K → K) (I : K) (l : Leaf K)
     simp [Leaf.adj] at ha; obtain ⟨_, rfl⟩ := ha
     simp [Impl.dom, Impl.ran, Leaf.dom, Leaf.ran]
   | realPart S R =>
-    obtain ⟨hr, rfl⟩ := h
-    simp [Leaf.adj, hr] at ha; subst ha; simp [Impl.dom, Impl.ran, Leaf.dom, Leaf.ran]
+    by_cases hr : S.real = true
+    · have e := h hr; subst e
+      simp [Leaf.adj, hr] at ha; subst ha; simp [Impl.dom, Impl.ran, Leaf.dom, Leaf.ran]
+    · simp [Leaf.adj, hr] at ha; subst ha; simp [Impl.dom, Impl.ran, Leaf.dom, Leaf.ran]
   | imagPart S R =>
-    obtain ⟨hr, rfl⟩ := h
-    simp [Leaf.adj, hr] at ha; subst ha; simp [Impl.dom, Impl.ran, Leaf.dom, Leaf.ran]
+    by_cases hr : S.real = true
+    · have e := h hr; subst e
+      simp [Leaf.adj, hr] at ha; subst ha; simp [Impl.dom, Impl.ran, Leaf.dom, Leaf.ran]
+    · simp [Leaf.adj, hr] at ha; subst ha; simp [Impl.dom, Impl.ran, Leaf.dom, Leaf.ran]
   | cembed S C s =>
     by_cases e : S.real = true
     · simp only [Leaf.adj, e, if_true] at ha
@@ -785,13 +786,12 @@ theorem C05.adj_adj_partial (cj : K →+* K) (hcj : ∀ a, cj (cj a) = a) (I : K
         obtain ⟨r'', hr2, rr⟩ := ihr rest' hs.2 hl.2 er
         exact ⟨.pcons r c a'' r'', by simp [Impl.adj, ha2, hr2], by simp [Impl.run, ra, rr]⟩
 
-/-- MatrixOperator: the adjoint of the adjoint is the original matrix (`conj (conj M) = M`),
-and likewise Zero, Sampling ↔ WeightedSumSampling, PointwiseInner ↔ PointwiseInnerAdjoint
-return to the same leaf. -/
+/-- Zero, PointwiseInner ↔ PointwiseInnerAdjoint and ComponentProjection ↔
+ComponentProjectionAdjoint return to the same leaf under a second `.adjoint`. -/
 theorem C05.leaf_adj_adj (cj : K →+* K) (hcj : ∀ a, cj (cj a) = a) (I : K) (l : Leaf K)
     (h : match l with
-      | .matrix _ _ _ | .zero _ _ | .sampling _ _ _ _ _ | .wsum _ _ _ _ _
-      | .pwInner _ _ _ _ _ | .pwInnerAdj _ _ _ _ _ | .proj _ _ _ | .projAdj _ _ _ => True
+      | .zero _ _ | .pwInner _ _ _ _ _ | .pwInnerAdj _ _ _ _ _ | .proj _ _ _
+      | .projAdj _ _ _ => True
       | _ => False) :
     (Impl.leaf l).leavesAA cj I := by
   intro t' ha
@@ -805,40 +805,21 @@ end
 section
 open OdlModel.Adjoint
 
-/-- F7 on the model: a 2×3 real matrix on a domain with array weights (2,1,1) and an
-unweighted range — the coded adjoint (transpose, weights ignored) violates the identity:
-⟨A e₀, f₀⟩_ran = 1 but ⟨e₀, A* f₀⟩_dom = 2.  So the hypothesis "equal constant weights" of
-`matrix_adj_of_equal_const_weights` cannot be dropped. -/
-theorem C05.matrix_adj_fails :
-    ∃ (d r : Space ℚ) (M : Nat → Nat → ℚ) (t' : Impl ℚ) (x y : El ℚ),
+/-- Sensitivity (the repaired finding F7): the OLD `MatrixOperator.adjoint` — the bare conjugate
+transpose, weightings ignored — is NOT the adjoint on a domain with array weights (2,1,1)
+and an unweighted range: ⟨A e₀, f₀⟩_ran = 1 but ⟨e₀, Mᵀ f₀⟩_dom = 2.  So the weight factors
+in `matrix_adj` cannot be dropped. -/
+theorem C05.old_matrix_adj_fails :
+    ∃ (d r : Space ℚ) (M : Nat → Nat → ℚ) (x y : El ℚ),
       d.m = 1 ∧ r.m = 1 ∧ d.n 0 = 3 ∧ r.n 0 = 2 ∧ (∀ i, r.W 0 i = 1) ∧ (∀ i, 0 < d.W 0 i) ∧
-      (Leaf.matrix d r M).adj (RingHom.id ℚ) 0 = some t' ∧
       dot (RingHom.id ℚ) r ((Leaf.matrix d r M).run (RingHom.id ℚ) 0 x) y ≠
-        dot (RingHom.id ℚ) d x (t'.run (RingHom.id ℚ) 0 y) := by
+        dot (RingHom.id ℚ) d x
+          ((Leaf.matrix r d fun i k => M k i).run (RingHom.id ℚ) 0 y) := by
   refine ⟨⟨1, fun _ => 3, fun _ i => if i = 0 then 2 else 1, true⟩, ⟨1, fun _ => 2, fun _ _ => 1, true⟩,
-    fun i k => if i = 0 ∧ k = 0 then 1 else 0, _, fun _ i => if i = 0 then 1 else 0,
-    fun _ i => if i = 0 then 1 else 0, rfl, rfl, rfl, rfl, fun _ => rfl, ?_, rfl, ?_⟩
+    fun i k => if i = 0 ∧ k = 0 then 1 else 0, fun _ i => if i = 0 then 1 else 0,
+    fun _ i => if i = 0 then 1 else 0, rfl, rfl, rfl, rfl, fun _ => rfl, ?_, ?_⟩
   · intro i; by_cases h : i = 0 <;> simp [h]
-  · simp [dot, sumTo, Leaf.run, Impl.run]
-
-/-- F51 on the model: SamplingOperator on a space with constant weight 2 that has no
-`cell_volume` (so `cv = 1`): ⟨S e₀, f₀⟩ = 1 but ⟨e₀, S* f₀⟩ = 2. -/
-theorem C05.sampling_adj_fails_weighted :
-    ∃ (S R : Space ℚ) (t' : Impl ℚ) (x y : El ℚ),
-      (Leaf.sampling S R (fun _ => 0) false 1).adj (RingHom.id ℚ) 0 = some t' ∧
-      dot (RingHom.id ℚ) R ((Leaf.sampling S R (fun _ => 0) false 1).run (RingHom.id ℚ) 0 x) y ≠
-        dot (RingHom.id ℚ) S x (t'.run (RingHom.id ℚ) 0 y) := by
-  refine ⟨⟨1, fun _ => 1, fun _ _ => 2, true⟩, ⟨1, fun _ => 1, fun _ _ => 1, true⟩, _,
-    fun _ _ => 1, fun _ _ => 1, rfl, ?_⟩
-  simp [dot, sumTo, Leaf.run, Impl.run]
-
-/-- F54 on the model: `RealPart(C).adjoint` is `ComplexEmbedding(C)`, whose domain is the
-complex space `C`, not the real range of `RealPart`. -/
-theorem C05.adj_type_fails_realpart :
-    ∃ (S R : Space ℚ) (t' : Impl ℚ), S.real = false ∧ R = { S with real := true } ∧
-      (Leaf.realPart S R).adj (RingHom.id ℚ) 0 = some t' ∧ t'.dom ≠ (Leaf.realPart S R).ran := by
-  refine ⟨⟨1, fun _ => 1, fun _ _ => 1, false⟩, _, _, rfl, rfl, rfl, ?_⟩
-  simp [Impl.dom, Leaf.dom, Leaf.ran]
+  · simp [dot, sumTo, Leaf.run]
 
 /-- Non-vacuity of `adj_sound`: a concrete weighted tree
 `3·(2·Id) + MultiplyOperator(v)` composed with a 2×2 matrix on `rn(2, weighting=1/2)`
@@ -853,7 +834,7 @@ example :
   refine ⟨?_, rfl, ?_⟩
   · simp only [t, Impl.WT, Leaf.WT, Impl.dom, Impl.ran, Leaf.dom, Leaf.ran]
     refine ⟨⟨⟨⟨by simp, by simp⟩, by simp⟩, ⟨trivial, by intro _ j i; simp⟩, trivial, trivial⟩,
-      ⟨rfl, rfl, ⟨1 / 2, fun _ => rfl, fun _ => rfl⟩, trivial, by simp⟩, trivial⟩
+      ⟨rfl, rfl, fun _ => by norm_num, fun _ _ => rfl, fun _ _ => rfl, trivial, by simp⟩, trivial⟩
   · simp [t, Impl.needRe, Leaf.needRe]
 
 end
